@@ -111,6 +111,31 @@ META = {
                  "Lean kernel, Go harness, SIGKILL as crash model."),
         "technique": "Lean 4 proof (durable-state invariant, crash_safe) + step monitoring of hooked durable events in Lean + kill/reopen differential judged by the Lean history monitor",
     },
+    "C14": {
+        "text": ("Lean theorems over the file-retention model: the directory CopyTo writes for a captured snapshot (one root.bolt "
+                 "record naming the copied files) satisfies the durable invariant and Open loads exactly that snapshot "
+                 "(copy_opens); from the moment a copy is scheduled until it ends, no legal step of persister, merger or purger "
+                 "removes a file it needs, for every trace (copy_protected); the captured snapshot is a root of the snapshot "
+                 "algebra, i.e. the replay of a prefix of the batches and never part of one (Props/Snapshot). Copies taken while "
+                 "the real index is written, merged and purged are opened and judged in Lean by the history monitor; their "
+                 "directory is compared with copyOf; the source keeps being observed."),
+        "design_ref": "DESIGN.md section 4, C14",
+        "note": ("partial: that CopyReader captures the root and schedules its files under one lock is exercised by the concurrent "
+                 "runs. trusted: Lean kernel, Go harness, bbolt."),
+        "technique": "Lean 4 proof (copy_opens, copy_protected over the retention model) + online-copy differential judged by the Lean history monitor",
+    },
+    "C11": {
+        "text": ("Lean model of the index lifecycle (read lock + open flag for calls, write lock for Close). Theorems for every "
+                 "interleaving: Close is granted only when no call is inside; afterwards every call is answered with the "
+                 "closed-index error and nothing gets inside; before it every call proceeds; a second Close is answered with the "
+                 "closed-index error. The monitor `verdict` carries the observable consequences to real histories. The check runs "
+                 "a race-detector build: many goroutines over all four engines with Close from two goroutines at a random moment, "
+                 "cancelled searches, goroutine count after Close; every call's sequence numbers and result are judged in Lean."),
+        "design_ref": "DESIGN.md section 4, C11",
+        "note": ("partial: data races, panics, deadlocks, leaks and promptness are properties of the Go runtime's executions; they are "
+                 "exercised (race detector, timeouts, goroutine counts), not proved. trusted: Lean kernel, Go race detector, harness."),
+        "technique": "Lean 4 proof of the lifecycle protocol + race-detector stress whose call histories are judged by the Lean monitor",
+    },
     "C12": {
         "text": ("Lean model of file retention over the durable-state model of C03: root.bolt snapshots with the files they name, "
                  "files on disk, files used by open readers. Theorems for every trace of steps whose side conditions hold: every "
